@@ -129,6 +129,87 @@ Proof.
   destruct (nth_error l k) as [v|] eqn:E; [exists v; reflexivity|]. apply nth_error_None in E. lia.
 Qed.
 
+Lemma match_d_false : forall (A : Type) t (X Y : A), prefix "d" t = false ->
+  (match t with String "d"%char _ => X | _ => Y end) = Y.
+Proof.
+  intros A t X Y H. destruct t as [|c r]; [reflexivity|]. cbn [prefix] in H.
+  destruct (ascii_dec "d" c) as [<-|N]; [destruct r; discriminate H|].
+  destruct c as [[] [] [] [] [] [] [] []]; try reflexivity; exfalso; apply N; reflexivity.
+Qed.
+Lemma match_d_true : forall (A : Type) t (X Y : A), prefix "d" t = true ->
+  (match t with String "d"%char _ => X | _ => Y end) = X.
+Proof.
+  intros A t X Y H. destruct t as [|c r]; [discriminate H|]. cbn [prefix] in H.
+  destruct (ascii_dec "d" c) as [<-|N]; [reflexivity|discriminate H].
+Qed.
+
+Lemma ltb_of_nat : forall a b, (Z.of_nat a <? Z.of_nat b)%Z = Nat.ltb a b.
+Proof. intros a b. destruct (Nat.ltb a b) eqn:E. apply Nat.ltb_lt in E. apply Z.ltb_lt. lia. apply Nat.ltb_ge in E. apply Z.ltb_ge. lia. Qed.
+
+Lemma bound_of_nat : forall a d, bound (PInt (Z.of_nat a)) d = Some a.
+Proof. intros a d. unfold bound. replace (Z.of_nat a <? 0)%Z with false by (symmetry; apply Z.ltb_ge; lia). rewrite Nat2Z.id. reflexivity. Qed.
+Lemma py_slice_str : forall t a b, py_slice (PStr t) (PInt (Z.of_nat a)) (PInt (Z.of_nat b)) = Ok (PStr (substring a (b - a) t)).
+Proof. intros t a b. unfold py_slice. rewrite !bound_of_nat. reflexivity. Qed.
+Lemma py_slice_str_end : forall t a, py_slice (PStr t) (PInt (Z.of_nat a)) PNone = Ok (PStr (substring a (String.length t - a) t)).
+Proof. intros t a. unfold py_slice. rewrite bound_of_nat. reflexivity. Qed.
+
+Lemma split_on_nonempty : forall p s, split_on p s <> [].
+Proof. intros p s. destruct s as [|c r]; cbn [split_on]; [discriminate|]. destruct (p c); [discriminate|]. destruct (split_on p r); discriminate. Qed.
+
+Lemma removelast_map : forall {A B} (f : A -> B) l, removelast (map f l) = map f (removelast l).
+Proof. intros A B f l. induction l as [|x r IH]; [reflexivity|]. cbn [map removelast]. destruct r; [reflexivity|]. cbn [map] in *. rewrite IH. reflexivity. Qed.
+
+Lemma py_pop_strs : forall l, l <> [] -> py_pop (PList (map PStr l)) = Ok (PList (map PStr (removelast l))).
+Proof. intros l H. destruct l as [|x r]; [congruence|]. cbn [map py_pop]. rewrite <- (removelast_map PStr (x :: r)). reflexivity. Qed.
+
+Lemma even_mod2 : forall n, (Z.of_nat n mod 2 =? 0)%Z = Nat.even n.
+Proof.
+  intro n. destruct (Nat.even n) eqn:E.
+  - apply Nat.even_spec in E. destruct E as [k ->]. rewrite Nat2Z.inj_mul, Z.mul_comm, Z_mod_mult. reflexivity.
+  - assert (Od : Nat.odd n = true) by (unfold Nat.odd; rewrite E; reflexivity).
+    apply Nat.odd_spec in Od. destruct Od as [k ->]. rewrite Nat2Z.inj_add, Nat2Z.inj_mul, Z.add_comm, Z.mul_comm, Z_mod_plus_full. reflexivity.
+Qed.
+
+Lemma nth_py_nth : forall l k, k < length l -> nth_py l (Z.of_nat k) = Ok (nth k l PNone).
+Proof.
+  intros l k H. unfold nth_py.
+  assert (A : (Z.of_nat k <? 0)%Z = false) by (apply Z.ltb_ge; lia).
+  assert (B : (Z.of_nat (length l) <=? Z.of_nat k)%Z = false) by (apply Z.leb_gt; lia).
+  cbv zeta. rewrite A, A, B. cbn [orb]. rewrite Nat2Z.id.
+  destruct (nth_error l k) as [v|] eqn:E; [rewrite (nth_error_nth _ _ _ E); reflexivity|]. apply nth_error_None in E. lia.
+Qed.
+
+Lemma list_pair_ind : forall {A} (P : list A -> Prop),
+  P [] -> (forall a, P [a]) -> (forall a b r, P r -> P (a :: b :: r)) -> forall l, P l.
+Proof.
+  intros A P H0 H1 H2 l. assert (X : P l /\ forall a, P (a :: l)); [|exact (proj1 X)].
+  induction l as [|x r [IH1 IH2]]; [split; [exact H0|exact H1]|]. split; [apply IH2|]. intro a. apply H2. exact IH1.
+Qed.
+
+Lemma abs_fields_app : forall a b fa fb, abs_fields a = Some fa -> abs_fields b = Some fb -> abs_fields (a ++ b) = Some (fa ++ fb)%list.
+Proof.
+  induction a as [|p r IH]; intros b fa fb A B; cbn [abs_fields app] in *.
+  - injection A as <-. exact B.
+  - destruct (abs_field p); [|discriminate]. destruct (abs_fields r) as [fr|] eqn:Er; [|discriminate]. injection A as <-.
+    rewrite (IH b fr fb eq_refl B). reflexivity.
+Qed.
+
+Lemma tersemap_dget : forall ty,
+  dget [("s", PStr "string"); ("i", PStr "integer"); ("f", PStr "float"); ("b", PStr "boolean"); ("c", PStr "complex")] ty
+  = option_map PStr (tersemap ty).
+Proof.
+  intro ty. unfold tersemap, dget.
+  destruct (String.eqb ty "s"); [reflexivity|]. destruct (String.eqb ty "i"); [reflexivity|].
+  destruct (String.eqb ty "f"); [reflexivity|]. destruct (String.eqb ty "b"); [reflexivity|].
+  destruct (String.eqb ty "c"); reflexivity.
+Qed.
+
+Lemma py_gt_nat : forall a b, py_gt (PInt (Z.of_nat a)) (PInt (Z.of_nat b)) = Ok (PBool (Nat.ltb b a)).
+Proof. intros a b. cbn [py_gt int_op2 as_int]. rewrite ltb_of_nat. reflexivity. Qed.
+Lemma py_eq_nat : forall O a b, py_eq O (PInt (Z.of_nat a)) (PInt (Z.of_nat b)) = Ok (PBool (Nat.eqb a b)).
+Proof. intros O a b. change (py_eq O (PInt (Z.of_nat a)) (PInt (Z.of_nat b))) with (Ok (A:=pyval) (PBool (Z.eqb (Z.of_nat a) (Z.of_nat b)))).
+  rewrite eqb_of_nat. reflexivity. Qed.
+
 (* ---------------------------------------------------------------- facts about the primitives *)
 Section Inst.
 Variable O : oracles.
@@ -467,6 +548,122 @@ Proof.
   cbn [row_vals save_row map fst snd]. rewrite <- cell_val_model, <- IH.
   destruct (cell_val m t f d) as [v|e]; [|destruct e; reflexivity]. cbn [bind value_to_scsv].
   destruct (row_vals m tfs row) as [vs|e]; [reflexivity|destruct e; reflexivity].
+Qed.
+
+(* ---------------------------------------------------------------- parse_scsv_schema (terse schemas)
+   for EVERY string: the generated parser fails exactly when parse_terse fails (with the same exception), and
+   otherwise returns a dictionary that stands for the schema parse_terse returns (the dictionary also carries
+   the 'unit' key of a three-part spec, which the typed schema does not record) *)
+Theorem gen_parse_terse_eq : forall t,
+  match gen_parse_scsv_schema O (PStr t), parse_terse t with
+  | Ok p, Ok s => abs_schema p = Some s
+  | Err e, Err e' => e = e'
+  | _, _ => False
+  end.
+Proof.
+  intros t. unfold gen_parse_scsv_schema, parse_terse.
+  cbn [py_startswith bind py_not py_truth].
+  destruct (prefix "d" t) eqn:P; [rewrite (match_d_true _ t _ _ P)|rewrite (match_d_false _ t _ _ P); reflexivity].
+  cbn [negb bind py_find one_char]. unfold find_from0.
+  destruct (find_char ":" t (String.length t)) as [ic|] eqn:Fc; [|reflexivity].
+  cbn [bind py_lt int_op2 as_int]. change 4%Z with (Z.of_nat 4). rewrite ltb_of_nat. cbn [py_truth bind].
+  destruct (Nat.ltb ic 4) eqn:L4; [reflexivity|]. cbn [bind py_find3 one_char].
+  replace (Z.of_nat ic <? 0)%Z with false by (symmetry; apply Z.ltb_ge; lia). rewrite Nat2Z.id. unfold find_from0.
+  destruct (find_char "m" t ic) as [im|] eqn:Fm; [|reflexivity].
+  cbn [bind py_lt int_op2 as_int]. change 2%Z with (Z.of_nat 2). rewrite ltb_of_nat. cbn [py_truth bind].
+  destruct (Nat.ltb im 2) eqn:L2; [reflexivity|]. cbn [bind].
+  change 1%Z with (Z.of_nat 1). rewrite py_slice_str. cbn [bind py_add int_op2 as_int].
+  replace (Z.of_nat im + Z.of_nat 1)%Z with (Z.of_nat (S im)) by lia.
+  replace (Z.of_nat ic + Z.of_nat 1)%Z with (Z.of_nat (S ic)) by lia.
+  rewrite py_slice_str. cbn [bind]. rewrite py_slice_str_end. cbn [bind py_re_split String.eqb Ascii.eqb Bool.eqb].
+  replace (String.length t - S ic) with (String.length t - ic - 1) by lia.
+  replace (ic - S im) with (ic - im - 1) by lia.
+  set (raw := split_on is_paren (substring (S ic) (String.length t - ic - 1) t)).
+  rewrite (py_pop_strs raw (split_on_nonempty _ _)). cbn [bind py_len]. rewrite map_length.
+  set (cols := removelast raw).
+  cbn [py_lt int_op2 as_int]. rewrite ltb_of_nat. cbn [py_truth bind].
+  destruct (Nat.ltb (length cols) 2) eqn:Lc; [reflexivity|]. cbn [bind].
+  cbn [py_mod int_op2 as_int Z.of_nat Pos.of_succ_nat Pos.succ Z.eqb bind].
+  change (py_ne O (PInt (Z.of_nat (length cols) mod 2)) (PInt 0))
+    with (Ok (A:=pyval) (PBool (negb (Z.of_nat (length cols) mod 2 =? 0)%Z))).
+  rewrite even_mod2. cbn [bind py_truth].
+  destruct (Nat.even (length cols)) eqn:Ev; cbn [negb]; [|reflexivity]. cbn [bind py_batched py_iter].
+  unfold for_loop. cbn [fst snd].
+  match goal with |- context [for_items ?b _ _ _] => set (body := b) end.
+  assert (C : forall name spec acc,
+     match body (PTuple [PStr name; PStr spec]) (PList acc), terse_field name spec with
+     | Ok (CNormal (PList out)), Ok f => exists p, out = (acc ++ [p])%list /\ abs_field p = Some f
+     | Err e, Err e' => e = e'
+     | _, _ => False
+     end).
+  { clear. intros name spec acc. unfold body, terse_field. cbn [py_unpack2 seq_items bind py_split one_char].
+    change (fun c : ascii => Ascii.eqb c ":"%char) with is_colon.
+    destruct (split_on is_colon spec) as [|t0 rest] eqn:Es; [exfalso; exact (split_on_nonempty _ _ Es)|].
+    cbn [map py_getitem as_int hd]. rewrite nth_py_0. cbn [bind]. rewrite py_ne_str. cbn [bind py_truth].
+    assert (R : forall tn,
+      match
+        (t34 <- py_len (PList (PStr t0 :: map PStr rest));;
+        t35 <- py_gt t34 (PInt 1);;
+        b36 <- py_truth t35;;
+        t37 <- (if b36 then nth_py (PStr t0 :: map PStr rest) 1 else Ok c__SCSV_DEFAULT_FILL);;
+        t38 <- py_len (PList (PStr t0 :: map PStr rest));;
+        t39 <- py_eq O t38 (PInt 3);;
+        b40 <- py_truth t39;;
+        c42 <-
+        (if b40
+         then
+          t41 <- nth_py (PStr t0 :: map PStr rest) 2;;
+          v_field <- py_setitem (PDict [("name", PStr name); ("type", PStr tn); ("fill", t37)]) (PStr "unit") t41;;
+          Ok (CNormal v_field)
+         else Ok (CNormal (PDict [("name", PStr name); ("type", PStr tn); ("fill", t37)])));;
+        match c42 with
+        | CNormal v_field => v_fields <- py_append (PList acc) v_field;; Ok (CNormal v_fields)
+        | CReturn v => Ok (CReturn v)
+        | CContinue l => Ok (CContinue l)
+        | CBreak l => Ok (CBreak l)
+        end : res (ctl pyval pyval))
+      with
+      | Ok (CNormal (PList out)) => exists p, out = (acc ++ [p])%list /\
+           abs_field p = Some {| fname := Some (YStr name); ftype := Some tn;
+                                 ffill := Some match rest with [] => default_fill | f :: _ => YStr f end |}
+      | _ => False
+      end).
+    { intro tn. cbn [py_len bind]. change 1%Z with (Z.of_nat 1). change 2%Z with (Z.of_nat 2). change 3%Z with (Z.of_nat 3).
+      rewrite py_gt_nat, py_eq_nat. cbn [bind py_truth].
+      destruct rest as [|f1 [|u [|w more]]]; cbn [map length Nat.ltb Nat.leb Nat.eqb bind];
+        rewrite ?nth_py_nth by (cbn [length]; lia); cbn [nth bind py_setitem dset String.eqb Ascii.eqb Bool.eqb py_append];
+        (eexists; split; [reflexivity|reflexivity]). }
+    destruct (String.eqb t0 ""); cbn [negb bind].
+    - exact (R default_type).
+    - unfold c_SCSV_TERSEMAP. cbn [py_getitem]. rewrite tersemap_dget.
+      destruct (tersemap t0) as [tn|]; cbn [option_map bind py_try]; [exact (R tn)|reflexivity]. }
+  assert (L : forall cols, Nat.even (length cols) = true -> forall acc fsacc, abs_fields acc = Some fsacc ->
+     match for_items body (batched2 (map PStr cols)) None (PList acc), terse_fields cols with
+     | Ok (inl (PList out)), Ok fs => abs_fields out = Some (fsacc ++ fs)%list
+     | Err e, Err e' => e = e'
+     | _, _ => False
+     end).
+  { clear - C. intro cols. induction cols as [| a | a b r IH] using list_pair_ind; intros Ev acc fsacc A.
+    - cbn. rewrite app_nil_r. exact A.
+    - discriminate Ev.
+    - cbn [map batched2 for_items terse_fields]. specialize (C a b acc).
+      destruct (body (PTuple [PStr a; PStr b]) (PList acc)) as [[st|v|l|l]|e]; destruct (terse_field a b) as [f|e'];
+        try contradiction; try (destruct st; contradiction).
+      + destruct st as [| | | | | | out | | | |]; try contradiction. destruct C as [p [-> Ap]]. cbn [bind].
+        assert (A' : abs_fields (acc ++ [p]) = Some (fsacc ++ [f])%list).
+        { apply abs_fields_app; [exact A|]. cbn [abs_fields]. rewrite Ap. reflexivity. }
+        specialize (IH Ev (acc ++ [p])%list (fsacc ++ [f])%list A').
+        destruct (for_items body (batched2 (map PStr r)) None (PList (acc ++ [p]))) as [[st|v]|e]; destruct (terse_fields r) as [fs|e'];
+          try contradiction; try (destruct st; contradiction); cbn [bind].
+        * destruct st; try contradiction. rewrite <- app_assoc in IH. exact IH.
+        * exact IH.
+      + cbn [bind]. exact C. }
+  specialize (L cols Ev [] [] eq_refl).
+  destruct (for_items body (batched2 (map PStr cols)) None (PList [])) as [[st|v]|e]; destruct (terse_fields cols) as [fs|e'];
+    try contradiction; try (destruct st; contradiction); cbn [bind run_fn].
+  - destruct st as [| | | | | | out | | | |]; try contradiction. cbn [app] in L.
+    unfold abs_schema. cbn [dget String.eqb Ascii.eqb Bool.eqb opt_str]. rewrite L. reflexivity.
+  - exact L.
 Qed.
 
 End Inst.
